@@ -290,10 +290,12 @@ TDescA = T.Rec('TDescA', ranks=T.Int, ranks_per_node=T.Opt(T.Int),
                named_env=OStr, priority=T.Opt(T.Int), raptor_id=OStr, mode=OStr,
                slots=T.Opt(SlotL))
 REG.optional_keys['TDescA'] = {'partition', 'named_env', 'priority', 'raptor_id', 'mode', 'slots'}
-ATask  = T.Rec('ATask', uid=T.Str, description=TDescA, slots=T.Opt(SlotL),
+ATask  = T.RecD('ATask', dict(uid=T.Str, description=TDescA, slots=T.Opt(SlotL),
                partition=T.Opt(T.Int), exception=OAny, exception_detail=OAny,
-               resources=OAny)
-REG.optional_keys['ATask'] = {'slots', 'partition', 'exception', 'exception_detail', 'resources'}
+               resources=OAny, tuple_size=T.Opt(T.Tuple(T.Int, T.Int, T.Real)),
+               raptor_seen=T.Opt(T.Bool), state=OStr, **{'$set': T.Opt(T.List(T.Str))}))
+REG.optional_keys['ATask'] = {'slots', 'partition', 'exception', 'exception_detail', 'resources',
+                              'tuple_size', 'raptor_seen', 'state', '$set'}
 REG.types.update(ATask=ATask)
 RMInfo = T.Rec('RMInfoA', cores_per_node=T.Int, gpus_per_node=T.Int,
                lfs_per_node=T.Int, mem_per_node=T.Int)
@@ -381,7 +383,10 @@ REG.spec('agent/scheduler/continuous.py:Continuous.schedule_task',
                 'ValueError': 'True'},
     raises_weak = ['ValueError'],
     frame_on_raise = False,
+    exc_ensures = {e: [('offset-stays-in-range', 'implies(len(self.nodes) > 0, 0 <= self._node_offset < len(self.nodes))')]
+                   for e in ('AssertionError', 'ValueError')},
     ensures  = [
+      ('offset-stays-in-range', 'implies(len(self.nodes) > 0, 0 <= self._node_offset < len(self.nodes))'),
       ('failure-is-none-none', 'implies(result[0] is None, result[1] is None)'),
       ('exactly-the-requested-ranks',
        'implies(result[0] is not None, len(val(result[0])) == task.description.ranks)'),
@@ -555,13 +560,20 @@ REG.spec('agent/scheduler/base.py:AgentSchedulingComponent._try_allocation',
     raises_weak = ['RuntimeError', 'AssertionError', 'ValueError'],
     # C03 / C04: a task that was not placed holds nothing
     exc_ensures = {e: [('nothing-taken', 'self.nodes == old(self.nodes) and self._active_cnt == old(self._active_cnt)'),
-                       ('request-kept', 'task.uid == old(task.uid) and task.description == old(task.description)')]
+                       ('offset-stays-in-range', 'implies(len(self.nodes) > 0, 0 <= self._node_offset < len(self.nodes))'),
+                       ('request-kept', 'task.uid == old(task.uid) and task.description == old(task.description) and '
+                                        'task.state == old(task.state) and task.slots == old(task.slots)')]
                    for e in ('RuntimeError', 'AssertionError', 'ValueError')},
+    # C04: "can never be scheduled" is concluded only on an idle pilot
+    exc_ensures_extra = {'RuntimeError': [('given-up-for-lack-of-resources-only-when-nothing-is-running', 'old(self._active_cnt) == 0')]},
     ensures  = [
       ('invariant-kept', 'sched_inv(self.nodes, self._rm.info.gpus_per_node)'),
+      ('offset-stays-in-range', 'implies(len(self.nodes) > 0, 0 <= self._node_offset < len(self.nodes))'),
       ('skeleton-kept', 'same_skeleton(self.nodes, old(self.nodes))'),
       ('refused-takes-nothing', 'implies(not result, self.nodes == old(self.nodes) and self._active_cnt == old(self._active_cnt) and old(self._active_cnt) > 0)'),
       ('request-kept', 'task.uid == old(task.uid) and task.description == old(task.description)'),
+      ('refused-leaves-the-task-alone', 'implies(not result, task == old(task))'),
+      ('granted-touches-placement-only', 'task.state == old(task.state) and task.tuple_size == old(task.tuple_size)'),
       ('granted-is-counted', 'implies(result, self._active_cnt == old(self._active_cnt) + 1)'),
       ('granted-placement-recorded-on-task',
        'implies(result, task.slots is not None and len(val(task.slots)) == task.description.ranks)'),
@@ -575,6 +587,10 @@ REG.spec('agent/scheduler/base.py:AgentSchedulingComponent._try_allocation',
        'lfs_mem_moved(self.nodes, old(self.nodes), val(task.slots), len(val(task.slots)), BUSY))'),
     ],
     serves   = ['C01', 'C03', 'C04'])
+_ta = REG.get('agent/scheduler/base.py:AgentSchedulingComponent._try_allocation')
+_ta['exc_ensures'] = dict(_ta['exc_ensures'])
+for _e, _l in _ta.pop('exc_ensures_extra').items():
+    _ta['exc_ensures'][_e] = list(_ta['exc_ensures'][_e]) + _l
 
 
 REG.spec('agent/scheduler/continuous.py:Continuous.unschedule_task',
